@@ -522,6 +522,13 @@ class Summariser:
     def s_Expr(self, node, st):
         if isinstance(node.value, ast.Constant):
             return [(st, ("normal",))]
+        v = node.value
+        if isinstance(v, ast.Call) and isinstance(v.func, ast.Name) and v.func.id.startswith("_") and v.func.id in self.model.functions and v.func.id not in st.env \
+                and not v.func.id[1:2].isupper() and st.depth < self.inline_depth:
+            # a private package-level procedure called for its effects: its body runs in place (loops included), one continuation per exit
+            multi = self._multi_inline_fi(self.model.functions[v.func.id], v, st, static=True, bound=False, procedure=True)
+            if multi:
+                return [(s_, ("normal",)) for s_, _ in multi]
         self.expr(node.value, st)
         return [(st, ("normal",))]
 
@@ -583,12 +590,15 @@ class Summariser:
             return None
         return self._multi_inline_fi(fi, call, st, static=static, bound=bound)
 
-    def _multi_inline_fi(self, fi, call, st, static, bound):
+    def _multi_inline_fi(self, fi, call, st, static, bound, procedure=False):
         if fi.node is self.fi.node or any(isinstance(a, ast.Starred) for a in call.args) or any(k.arg is None for k in call.keywords):
             return None
-        if any(isinstance(n, (ast.For, ast.While, ast.Try, ast.With)) for n in ast.walk(fi.node)):
+        if procedure:
+            if any(isinstance(n, (ast.Try, ast.With, ast.Yield, ast.YieldFrom)) for n in ast.walk(fi.node)) or not any(isinstance(n, (ast.For, ast.While)) for n in ast.walk(fi.node)):
+                return None
+        elif any(isinstance(n, (ast.For, ast.While, ast.Try, ast.With)) for n in ast.walk(fi.node)):
             return None        # only straight-line helpers (branches and comprehensions); anything with loops or handlers stays a call
-        if not any(isinstance(n, (ast.If, ast.IfExp, ast.BoolOp, ast.Raise)) for n in ast.walk(fi.node)):
+        elif not any(isinstance(n, (ast.If, ast.IfExp, ast.BoolOp, ast.Raise)) for n in ast.walk(fi.node)):
             return None        # a helper without branches is inlined by the ordinary (single-exit) route
         probe = st.fork()
         args = [self.expr(a, probe) for a in call.args]
@@ -804,6 +814,17 @@ class Summariser:
 
     def _callable_idiom(self, node, st):
         t = node.test
+        # statement form of `t = X(c) if callable(X) else X`:  if callable(X): t = X(c)  else: t = X
+        if len(node.body) == 1 and len(node.orelse) == 1 and isinstance(t, ast.Call) and isinstance(t.func, ast.Name) and t.func.id == "callable" and len(t.args) == 1 \
+                and not t.keywords:
+            b, o = node.body[0], node.orelse[0]
+            if isinstance(b, ast.Assign) and isinstance(o, ast.Assign) and len(b.targets) == 1 and len(o.targets) == 1 and isinstance(b.targets[0], ast.Name) \
+                    and isinstance(o.targets[0], ast.Name) and b.targets[0].id == o.targets[0].id and isinstance(b.value, ast.Call) and len(b.value.args) == 1 \
+                    and not b.value.keywords and ast.dump(b.value.func) == ast.dump(t.args[0]) and ast.dump(o.value) == ast.dump(t.args[0]):
+                p = self.expr(t.args[0], st)
+                ctx = self.expr(b.value.args[0], st)
+                self.assign(b.targets[0], self.mk_eval(st, p, ctx, node), st, node)
+                return True
         if node.orelse or len(node.body) != 1:
             return False
         if not (isinstance(t, ast.Call) and isinstance(t.func, ast.Name) and t.func.id == "callable" and len(t.args) == 1
